@@ -652,7 +652,7 @@ def run(chk):
         "(assignment, formats, kind list, language) request; distinct = different canonical request."
     )
     chk.trusted += [
-        "hand models coq/model/Graphs.v, OutputOrder.v, Names.v tied to /repo by correspondence only",
+        "hand models coq/model/Graphs.v, OutputOrder.v tied to /repo by correspondence; Names.v and the callees of to_iteration_graphs (legal_iteration_orders, merge_add, merge_multiply, tensor chains, the two target filters) additionally by regeneration + equivalence proof (TIE names, graphs; see design.d/TIE_graphs.md for what is still pinned or unproved)",
         "OutputOrder.v keeps only the control flow of _generate_ir.py that decides failure; exhausted "
         "sub-graphs are argued (not proved) to fail only where the un-exhausted graph fails",
         "gcc -fsyntax-only -std=c99 and llvmlite verify as the tool chains; several kernels share one gcc run "
